@@ -78,6 +78,12 @@ pub const STATEMENTS: &[(&str, &str)] = &[
     ("pragma", "pragma some words here\n"),
     ("pragma-hash", "#pragma other words\n"),
     ("annotation", "@ann thing 1 2\n"),
+    ("not-expr-stmt", "!t;"),
+    ("bitnot-expr-stmt", "~x;"),
+    ("if-empty-body", "if (t) ;"),
+    ("if-else-empty-body", "if (t) x q; else ;"),
+    ("while-empty-body", "while (t) ;"),
+    ("for-empty-body", "for int j in [0:2] ;"),
     ("pragma-bare", "pragma\n"),
     ("pragma-hash-bare", "#pragma\n"),
     ("annotation-bare", "@ann\n"),
@@ -142,7 +148,7 @@ const ROUTINE_SWITCHING: &[&str] = &[
     "measure-assign", "return", "return-value", "assign", "assign-ident", "assign-paren", "assign-indexed", "assign-compound", "expr-stmt",
     "neg-expr-stmt", "paren-expr-stmt", "paren-call-stmt", "call-stmt", "index-stmt", "pragma", "pragma-hash", "annotation", "version", "block",
     // (other spellings of the same statement kinds)
-    "pragma-bare", "pragma-hash-bare", "annotation-bare",
+    "pragma-bare", "pragma-hash-bare", "annotation-bare", "not-expr-stmt", "bitnot-expr-stmt",
 ];
 
 fn check_sequence(idxs: &[usize], ctx: usize, sep: &str, obs: &mut Obs) {
@@ -181,7 +187,13 @@ fn check_sequence(idxs: &[usize], ctx: usize, sep: &str, obs: &mut Obs) {
     let next_of = |k: usize| if k + 1 >= idxs.len() { "end" } else { STATEMENTS[idxs[k + 1]].0 };
     match r {
         Err(p) => {
-            obs.inconclusive(format!("parse panicked: {}", p.site()));
+            // every statement parsed cleanly on its own: the concatenation must parse, not panic
+            let last = idxs.len() - 1;
+            obs.violate(
+                format!("{}/{}/{cname}/panic/{}", kind_of(last), pred_of(last), p.site()),
+                format!("{src:?}: the parser panicked ({}:{} {}) although every statement parses cleanly alone", p.file, p.line, p.msg),
+            );
+            obs.done(true);
         }
         Ok((nerr, list)) => {
             let Some(list) = list else {
